@@ -635,6 +635,7 @@ type Outcome struct {
 	Intact           bool     `json:"intact"`
 	Fault            bool     `json:"fault,omitempty"`
 	AliasesInput     bool     `json:"aliases_input,omitempty"`
+	ArgModified      bool     `json:"arg_modified,omitempty"`
 	ClobberedEarlier string   `json:"clobbered_earlier,omitempty"`
 	NilRd            bool     `json:"-"`
 	Fn               string   `json:"-"`
@@ -803,7 +804,7 @@ func execOp(p *Prepared) (out *Outcome) {
 		l := dev.log
 		out.Dev = &l
 	}
-	out.Intact = p.G.Intact() && basepointIntact() && !out.Fault
+	out.Intact = p.G.Intact() && basepointIntact() && !out.Fault && !out.ArgModified
 	// a result must be a fresh object: a slice that points into the caller's
 	// (shared, read-only) input hands out a writable view of it
 	for _, b := range [][]byte{out.b, out.b2} {
@@ -960,6 +961,7 @@ func call(p *Prepared, rd io.Reader, out *Outcome) {
 		out.b = dst[:]
 		if sc != p.scArr {
 			out.Err = "scalar argument modified"
+			out.ArgModified = true
 		}
 	case "ScalarMult":
 		var dst [32]byte
@@ -968,6 +970,7 @@ func call(p *Prepared, rd io.Reader, out *Outcome) {
 		out.b = dst[:]
 		if sc != p.scArr || pt != p.ptArr {
 			out.Err = "argument modified"
+			out.ArgModified = true
 		}
 	case "EdPrivToX":
 		out.b = x25519.EdPrivateKeyToX25519(ed25519.PrivateKey(p.priv))
